@@ -219,6 +219,28 @@ def check_obstacle(r, ctx):
                         raise Violation("moved-state-" + ob["role"], "t=%d after translate_rotate(%r, %r): state %r, "
                                         "expected position %r" % (ts, t, a, got, want))
         ctx.label("with-motion")
+    if ob.get("_reassign") and ob["role"] in ("static", "dynamic") and not ob.get("_update") and not ob.get("_motion"):
+        # a simulation loop advances ONE state object: the obstacle's own initial state is edited in place and handed
+        # back through the public setter; the occupancy at the initial time step follows
+        new_p, new_o = ob["_reassign"]
+        with warnings.catch_warnings():
+            warnings.simplefilter("ignore")
+            s_obj = obj.initial_state
+            if isinstance(getattr(s_obj, "position", None), np.ndarray) and isinstance(getattr(s_obj, "orientation",
+                                                                                                  None), (int, float)):
+                s_obj.position = np.array(new_p, dtype=float)
+                s_obj.orientation = new_o
+                obj.initial_state = s_obj
+                t0 = ob["init"]["t"]
+                occ = obj.occupancy_at_time(t0)
+                exp = gg.place(ob["shape"], new_p, new_o)
+                if occ is None:
+                    raise Violation("reassigned-state-occupancy-missing", "t=%d" % t0)
+                d = gg.same_geo(gg.lib_shape_geo(occ.shape), exp, 1e-9 * (1 + gg.geo_scale_of(exp)))
+                if d:
+                    raise Violation("reassigned-state-occupancy-" + ob["role"], "the obstacle's own state object was "
+                                    "edited in place and assigned again: %s" % d)
+                ctx.label("same-state-object-reassigned")
     if ob.get("_update") and ob["role"] == "dynamic":
         # the obstacle receives a new initial state through the public updater: from then on the occupancy at the new
         # initial time step is the shape placed at that state, and (the prediction being invalidated) None elsewhere
@@ -281,7 +303,8 @@ def s_obstacle(tier):
     off = {"shape": gg.any_shape(centered=False), "roles": ["static", "dynamic", "dynamic"]}
     return st.tuples(st.one_of(gs.obstacle_recipe(7), gs.obstacle_recipe(7, role="dynamic"), custom_ob,
                                gs.obstacle_recipe(7, profile=off)), motion,
-                     update).map(lambda t: dict(t[0], _motion=t[1], _update=t[2]))
+                     update, st.one_of(st.none(), st.tuples(gg.point(100), angle()).map(list))).map(
+        lambda t: dict(t[0], _motion=t[1], _update=t[2], _reassign=t[3]))
 
 
 # ------------------------------------------------------------------------------------------- uncertain enclosure
